@@ -1,6 +1,7 @@
 """C14 — the nested list-of-dicts form round-trips and mirrors the tree."""
 from __future__ import annotations
 
+import copy
 import dataclasses
 import itertools
 import json
@@ -168,7 +169,7 @@ def dec(j, U):
     raise ValueError(j)
 
 
-SM_KINDS = ["none", "set", "wrap", "new", "newdrop", "extra"]
+SM_KINDS = ["none", "set", "wrap", "new", "newdrop", "extra", "guid"]
 
 
 def make_ser(kind, U):
@@ -184,6 +185,13 @@ def make_ser(kind, U):
         return ser
     if kind == "extra":   # the style of the pinned suite: leave "data", add entries, return the dict
         def ser(node, data):
+            data["t"] = enc(node.data, U)
+            return data
+        return ser
+    if kind == "guid":   # the id is kept under an application key; the deserialize mapper restores item["data_id"]
+        def ser(node, data):
+            if "data_id" in data:
+                data["g"] = data.pop("data_id")
             data["t"] = enc(node.data, U)
             return data
         return ser
@@ -203,21 +211,54 @@ def payload(kind, v):
 
 
 def decode_item(kind, item, U):
-    """the data object the deserialisation step builds for an item dict"""
+    """the data object the deserialisation step builds for an item dict (read-only version, for the reference)"""
     if kind == "none":
         return item["data"]
-    if kind == "extra":
+    if kind in ("extra", "guid"):
         return dec(item["t"], U)
     return dec(payload(kind, item["data"]), U)
+
+
+def item_id(kind, item):
+    """the data_id entry the item has once the deserialize mapper ran"""
+    return item.get("g") if kind == "guid" else item.get("data_id")
 
 
 def make_deser(kind, U):
     if kind == "none":
         return None
+    if kind == "extra":    # a mapper that consumes (pops) the entry it reads
+        def deser(parent, item):
+            return dec(item.pop("t"), U)
+        return deser
+    if kind == "guid":     # ... and restores the data_id the serialize mapper moved away
+        def deser(parent, item):
+            o = dec(item.pop("t"), U)
+            if "g" in item:
+                item["data_id"] = item.pop("g")
+            return o
+        return deser
 
     def deser(parent, item):
         return decode_item(kind, item, U)
     return deser
+
+
+def after_mapper(kind, wire):
+    """the caller's structure as from_dict may leave it: only what the deserialize mapper itself does to an item"""
+    def go(l):
+        out = []
+        for it in l:
+            d = dict(it)
+            if kind in ("extra", "guid"):
+                d.pop("t", None)
+            if kind == "guid" and "g" in d:
+                d["data_id"] = d.pop("g")
+            if "children" in d and isinstance(d["children"], list):
+                d["children"] = go(d["children"])
+            out.append(d)
+        return out
+    return go(wire)
 
 
 def coq_smd(kind, U, tree_nodes):
@@ -235,6 +276,8 @@ def coq_smd(kind, U, tree_nodes):
         return f"(SMwrap {tbl})"
     if kind == "extra":
         return f"(SMextra {tbl})"
+    if kind == "guid":
+        return f"(SMguid {tbl})"
     return f"(SMnew {tbl} {H.coq_bool(kind == 'new')})"
 
 
@@ -300,7 +343,7 @@ def coq_dtable(obj, kind, U) -> str:
     object (raw value or decoded), abstracted; or the error class of hashing it"""
     rows = {}
     for it in item_dicts(obj):
-        if kind == "extra":   # keyed by the item's own entries
+        if kind in ("extra", "guid"):   # keyed by the item's own entries
             v = {k: x for k, x in it.items() if k != "children"}
         elif "data" not in it:
             continue
@@ -349,6 +392,42 @@ def apply_prep(tree, prep):
         raise ValueError(prep)
 
 
+HIST_OPS = ["remove", "remove_keep", "remove_children", "move", "move_top", "add", "filter"]
+
+
+def apply_hist(tree, hist):
+    """a mutation history applied before the tree is serialised; node arguments are pre-order indices into the
+    tree as it is at that moment; an operation the library refuses (or that does not apply) is skipped"""
+    for op in hist or []:
+        if op[0] not in HIST_OPS and op[0] != "clear_readd":
+            raise ValueError(op)
+        nodes = B.all_nodes(tree._root)
+        try:
+            if op[0] == "clear_readd":
+                tree.clear()
+                tree.add(op[1])
+                continue
+            if not nodes:
+                continue
+            n = nodes[op[1] % len(nodes)]
+            if op[0] == "remove":
+                n.remove()
+            elif op[0] == "remove_keep":
+                n.remove(keep_children=True)
+            elif op[0] == "remove_children":
+                n.remove_children()
+            elif op[0] == "move":
+                n.move_to(nodes[op[2] % len(nodes)])
+            elif op[0] == "move_top":
+                n.move_to(tree)
+            elif op[0] == "add":
+                n.add(op[2])
+            elif op[0] == "filter":   # in place: drop the nodes whose name ends in op[1]
+                tree.filter(lambda x: not x.name.endswith(str(op[1])))
+        except Exception:  # noqa: BLE001  (refused: uniqueness, move into own branch, ...)
+            pass
+
+
 class Prop:
     id = "C14"
     coq_prop = "Properties/C14.v"
@@ -359,16 +438,18 @@ class Prop:
     rule = ("plain trees: every ordered forest with <= 3 nodes x every labeling over 2 strings x data_id in {default, 0, '', 'k', "
             "hash(data)} that the tree accepts (quick: 3-node forests with {default, 0} only); every forest with <= N nodes (N=5 "
             "quick, 6 thorough) x 8 labeling patterns (distinct strings; strings JSON must escape; unhashable dicts/dataclasses under explicit ids; clones in different parents; explicit/falsy/default-valued ids; "
-            "value-equal objects, tuples, ints, dataclasses; identity-hashed objects; '7' next to 7) x the 6 serialisation mappers (none / "
-            "set data in place / wrap / new dict keeping or dropping data_id / extra entry read back by the decoder) with the inverse deserialisation mapper (at N nodes: 1 (quick) or 2 "
-            "of the 6 mappers per tree); trees under a calc_data_id hook; typed trees; emptied trees (clear, remove of the last top "
-            "node); seeded random trees (5..18 nodes quick, 5..30 thorough); 47 hand-written + 150 (thorough 800) random dict lists (missing/unhashable data, bad data_id / node_id / children entries, non-dict items); Node.from_dict "
+            "value-equal objects, tuples, ints, dataclasses; identity-hashed objects; '7' next to 7) x the 7 serialisation mappers (none / "
+            "set data in place / wrap / new dict keeping or dropping data_id / extra entry popped by the decoder / data_id moved to "
+            "another key and restored into item['data_id'] by the deserialize mapper) with the inverse deserialisation mapper (quick: all 7 up to 3 nodes, 3 of 7 at 4 "
+            "nodes, 1 of 7 at 5 nodes; thorough: all up to 5 nodes, 2 of 7 at 6 nodes); trees under a calc_data_id hook; typed trees; emptied trees (clear, remove of the last top "
+            "node); trees reached through mutation histories (remove, remove(keep_children), remove_children, move_to, filter, add, "
+            "clear + re-add: every single operation on every node of every forest <= 3 nodes, pairs on 4 nodes, random histories); seeded random trees (5..18 nodes quick, 5..30 thorough); 47 hand-written + 150 (thorough 800) random dict lists (missing/unhashable data, bad data_id / node_id / children entries, non-dict items); Node.from_dict "
             "into every node of every forest <= 3 (thorough 4) nodes x 3 calc_data_id hooks x 6 item lists.  Every dump goes through "
             "json.dumps/json.loads before from_dict.  A case is one tree (or one dict list); distinct = distinct desc; non-trivial = >= 3 nodes")
     exhaustive_note = ("all shapes <= 3 nodes x all labelings (2 strings x 5 data_id choices; quick: 2 choices at 3 nodes); "
                        "all shapes <= N nodes x 8 patterns x mappers (N=5 quick, 6 thorough)")
     assumptions = [
-        "serialisation mappers are functions of the node's data object/ids and the dict passed in; deserialisation mappers are functions of the item dict (any entry) and do not mutate it",
+        "serialisation mappers are functions of the node's data object/ids and the dict passed in; deserialisation mappers are functions of the item dict (any entry) and may add/change/pop entries other than 'children'",
         "the mapper pair is inverse: deser(ser(x)) == x (hence equal hash) – hypothesis of the round-trip theorem, not an axiom",
         "str(data) == f'{data}' (node.name) for the data objects used",
         "hash() never returns -1 (CPython): the model encodes 'hash(data) raises TypeError' as i_hash = -1",
@@ -437,12 +518,14 @@ class Prop:
             for si, shape in enumerate(H.forests(n)):
                 for pi, (univ, labeler) in enumerate(pats):
                     nodes = B.shape_to_nodes(shape, labeler)
-                    if n <= (4 if tier == "quick" else 5):
+                    if n <= (3 if tier == "quick" else 5):
                         kinds = SM_KINDS
+                    elif tier == "quick" and n == 4:
+                        kinds = [SM_KINDS[(pi + si + j) % 7] for j in (0, 2, 5)]
                     elif tier == "quick":
-                        kinds = [SM_KINDS[(pi + si) % 6]]
+                        kinds = [SM_KINDS[(pi + si) % 7]]
                     else:
-                        kinds = [SM_KINDS[(pi + si) % 5 + 1], "none"]
+                        kinds = [SM_KINDS[(pi + si) % 6 + 1], "none"]
                     for sm in kinds:
                         d = dict(univ=univ, nodes=nodes, sm=sm)
                         if ok(d):
@@ -477,6 +560,52 @@ class Prop:
                 d = dict(univ=["s:a", "s:b", "s:c"], nodes=B.shape_to_nodes(shape, lambda i, dp, s: (i, None, None)), sm="none", prep=prep)
                 if ok(d):
                     yield d
+        # (3b) trees reached through a mutation history (remove, remove(keep_children), remove_children, move_to,
+        #      clear + re-add, in-place filter, add) before they are serialised
+        def hist_desc(shape, n, hist, sm="none"):
+            return dict(univ=[f"s:n{i}" for i in range(n)] + ["s:x"], sm=sm, hist=hist,
+                        nodes=B.shape_to_nodes(shape, lambda i, dp, s: (i, None, None if i % 2 else f"h{i}")))
+
+        for n in (1, 2, 3):
+            for shape in H.forests(n):
+                for k in range(n):
+                    for op in ("remove", "remove_keep", "remove_children", "move_top"):
+                        d = hist_desc(shape, n, [[op, k]])
+                        if ok(d):
+                            yield d
+                    for j in range(n):
+                        if j != k:
+                            d = hist_desc(shape, n, [["move", k, j]])
+                            if ok(d):
+                                yield d
+                d = hist_desc(shape, n, [["filter", n - 1]])
+                if ok(d):
+                    yield d
+        for shape in H.forests(4):
+            for k in range(4):
+                for op in ("remove_keep", "remove"):
+                    d = hist_desc(shape, 4, [[op, k], ["remove_keep", k]], sm="set" if k % 2 else "none")
+                    if ok(d):
+                        yield d
+        for _ in range(40 if tier == "quick" else 600):
+            n = rng.randint(2, 7)
+            shape = H.random_shape(rng, n, deep=rng.choice([0.3, 0.7]))
+            hist = []
+            for _i in range(rng.randint(1, 5)):
+                op = rng.choice(HIST_OPS)
+                if op in ("move",):
+                    hist.append([op, rng.randrange(8), rng.randrange(8)])
+                elif op == "add":
+                    hist.append([op, rng.randrange(8), "x"])
+                elif op == "filter":
+                    hist.append([op, rng.randrange(n)])
+                else:
+                    hist.append([op, rng.randrange(8)])
+            if rng.random() < 0.1:
+                hist.insert(rng.randrange(len(hist) + 1), ["clear_readd", "again"])
+            d = hist_desc(shape, n, hist, sm=rng.choice(["none", "none", "set", "extra", "guid"]))
+            if ok(d):
+                yield d
         # (4) random
         nrand = 60 if tier == "quick" else 400
         for _ in range(nrand):
@@ -550,6 +679,9 @@ class Prop:
             yield dict(desc, nodes=nodes)
         if desc.get("sm") != "none":
             yield dict(desc, sm="none")
+        h = desc.get("hist") or []
+        for i in range(len(h)):
+            yield dict(desc, hist=h[:i] + h[i + 1:])
 
     # ------------------------------------------------------------------
     def run(self, desc) -> Case:
@@ -559,6 +691,7 @@ class Prop:
             return self.run_into(desc)
         tree, U = build14(desc)
         apply_prep(tree, desc.get("prep"))
+        apply_hist(tree, desc.get("hist"))
         kind = desc.get("sm", "none")
         nodes = B.all_nodes(tree._root)
         ser, deser = make_ser(kind, U), make_deser(kind, U)
@@ -568,7 +701,7 @@ class Prop:
         dump = call(lambda: tree.to_dict_list(mapper=ser))
         subs = nodes if len(nodes) <= 2 else [nodes[len(nodes) // 2], nodes[-1]]
         sub_dumps = [call(lambda n=n: n.to_dict(mapper=ser)) for n in subs]
-        stats = dict(nodes=len(nodes), depth=B.nodes_depth(desc["nodes"]), mapper=kind, prep=str(desc.get("prep")),
+        stats = dict(nodes=len(nodes), depth=B.nodes_depth(desc["nodes"]), mapper=kind, prep=str(desc.get("prep")), hist=len(desc.get("hist") or []),
                      custom_ids=sum(1 for n in nodes if is_custom(n)),
                      unhashable=sum(1 for n in nodes if safe_hash(n._data) == -1),
                      clones=sum(1 for n in nodes if len(tree._nodes_by_data_id.get(n._data_id, [])) > 1))
@@ -591,8 +724,14 @@ class Prop:
             wire = dump
             fail = f"json: structure is not JSON-serialisable ({type(e).__name__})"
         dt = coq_dtable(wire, kind, U)
+        wire0 = copy.deepcopy(wire)
         nxt = H.alloc_count()
         rebuilt = call(lambda: Tree.from_dict(wire, mapper=deser))
+        if not fail and not is_err(rebuilt):
+            # from_dict must not modify the caller's structure (beyond what the caller's own mapper does to an item)
+            if jv_sx(wire) != jv_sx(after_mapper(kind, wire0)):
+                fail = "snapshot: from_dict modified the structure it was given"
+        wire = wire0
         obs = [[jv_sx(d) for d in dump], [jv_sx(d) for d in sub_dumps], obs_rebuilt(rebuilt, U)]
         coq_input = f"(CRound {finput} {smd} {H.coq_list(H.z(H.nid(n)) for n in subs)} {dt} {nxt})"
         fail = fail or self.oracle(tree, U, kind, dump, subs, sub_dumps, wire, rebuilt)
@@ -704,7 +843,7 @@ class Prop:
     # ------------------------------------------------------------------
     @staticmethod
     def expected_data(kind, n, U):
-        if kind in ("none", "extra"):
+        if kind in ("none", "extra", "guid"):
             return str(n._data)
         if kind == "wrap":
             return [str(n._data), enc(n._data, U)]
@@ -727,10 +866,11 @@ class Prop:
                 keys = {"data"}
                 if kind in ("new", "newdrop"):
                     keys.add("x")
-                if kind == "extra":
+                if kind in ("extra", "guid"):
                     keys.add("t")
+                idkey = "g" if kind == "guid" else "data_id"
                 if custom and kind != "newdrop":
-                    keys.add("data_id")
+                    keys.add(idkey)
                 if n._children:
                     keys.add("children")
                 if set(d.keys()) != keys:
@@ -738,8 +878,8 @@ class Prop:
                 exp = self.expected_data(kind, n, U)
                 if jv_sx(d["data"]) != jv_sx(exp):
                     return f"mirror data: {w}: {d['data']!r} expected {exp!r}"
-                if "data_id" in keys and (d["data_id"] != n._data_id or type(d["data_id"]) is not type(n._data_id)):
-                    return f"mirror data_id: {w}: {d['data_id']!r} expected {n._data_id!r}"
+                if idkey in keys and (d[idkey] != n._data_id or type(d[idkey]) is not type(n._data_id)):
+                    return f"mirror data_id: {w}: {d[idkey]!r} expected {n._data_id!r}"
                 if n._children:
                     r = mirror(n._children, d["children"], w)
                     if r:
@@ -768,15 +908,15 @@ class Prop:
 
         # (b) round trip
         strings_only = all(isinstance(n._data, str) for n in B.all_nodes(root))
-        hyp = (kind == "none" and strings_only) or kind in ("set", "wrap", "new", "extra")
+        hyp = (kind == "none" and strings_only) or kind in ("set", "wrap", "new", "extra", "guid")
 
         def first_refusal(dl):
             """what from_dict has to refuse first, items taken in pre-order: 7 = an item without data_id whose data is
             unhashable (no default id), 1 = an item whose effective id is already taken by an earlier sibling"""
             ids = []
             for d in dl:
-                if d.get("data_id") is not None:
-                    e = d["data_id"]
+                if item_id(kind, d) is not None:
+                    e = item_id(kind, d)
                 else:
                     e = safe_hash(decode_item(kind, d, U))
                     if e == -1:
